@@ -191,7 +191,11 @@ func (s *sorts) structSortOf(t types.Type, st *types.Struct) string {
 	s.byType[key] = name
 	ss := &structSort{name: name, st: st}
 	for i := 0; i < st.NumFields(); i++ {
-		ss.fields = append(ss.fields, fmt.Sprintf("%s.%s", name, st.Field(i).Name()))
+		fname := st.Field(i).Name()
+		if fname == "_" {
+			fname = fmt.Sprintf("_blank%d", i)
+		}
+		ss.fields = append(ss.fields, fmt.Sprintf("%s.%s", name, fname))
 		ss.fsorts = append(ss.fsorts, s.sortOf(st.Field(i).Type()))
 	}
 	ss.order = len(s.structs)
